@@ -58,23 +58,32 @@ def num (s : String) : String := (s.splitOn "@").headD s
 
 def customOf (s : String) : Option Rat := if s = "none" then none else some (ratOf (num s))
 
-def kindOf? : String → Option Kind
-  | "P" => some .permit
-  | "E" => some .execute
-  | "B" => some .block
-  | "D" => some .defer
-  | "U" => some .other
-  | "X" => some .raises
+/-- the answer a voter of kind K gives: the action-type string of a returned protein, or no usable answer (X: the
+    harness lets `express` raise, or return None / a string / a bare object / a protein whose payload cannot be read) -/
+def actionOf? : String → Option (Option (List Nat))
+  | "P" => some (some permitCps)
+  | "E" => some (some executeCps)
+  | "B" => some (some blockCps)
+  | "D" => some (some deferCps)
+  | "U" => some (some [85, 78, 75, 78, 79, 87, 78])     -- "UNKNOWN": any action type but the four words
+  | "X" => some none
   | _ => none
 
-/-- `inf` / `-inf`: float("inf") is a number beyond the clamp (any such value gives confidence 1 / 0);
-    `nan`: float("nan") is rejected like a non-numeric confidence -/
-def confOf (s : String) : Conf :=
-  if s = "none" then .absent else if s = "bad" || s = "nan" then .bad
-  else if s = "unstr" || s = "unbool" || s = "unlen" then confOfPayload (.unrenderable false)
-  else if s = "unrepr" then confOfPayload (.unrenderable true)
-  else if s = "unkey" then confOfPayload .confBad
-  else if s = "inf" then .num 2 else if s = "-inf" then .num (-1) else .num (ratOf s)
+/-- the payload shape behind a conf token.  `inf` / `-inf`: float("inf") is a number beyond the clamp (any such value
+    gives confidence 1 / 0); `nan`: float("nan") is rejected like a non-numeric confidence; `unkey`: the key lookup
+    raises; `unstr` / `unbool` / `unlen` / `unrepr`: the payload cannot be rendered into the reasoning text -/
+def payloadOf (s : String) : Payload :=
+  if s = "none" then .notDict else if s = "bad" || s = "nan" || s = "unkey" then .confBad
+  else if s = "unstr" || s = "unbool" || s = "unlen" then .unrenderable false
+  else if s = "unrepr" then .unrenderable true
+  else if s = "inf" then .confNumeric 2 else if s = "-inf" then .confNumeric (-1) else .confNumeric (ratOf s)
+
+/-- what one member's agent does at one vote, through the model of the per-voter step (`answerBehaviour`) -/
+def behaviourOf? (k c : String) : Option Behaviour :=
+  match actionOf? k with
+  | some (some a) => some (answerBehaviour (.protein a (payloadOf c)))
+  | some none => some (answerBehaviour .raised)
+  | none => none
 
 /-- one ballot token `K:weight:rel:conf`; weight / rel `_` = keep what the profile has -/
 structure Tok where
@@ -87,8 +96,8 @@ def optRat (s : String) : Option Rat := if s = "_" then none else some (ratOf (n
 def tokOf? (s : String) : Option Tok :=
   match s.splitOn ":" with
   | [k, w, r, c] =>
-    match kindOf? k with
-    | some kd => some ⟨⟨kd, confOf c⟩, optRat w, optRat r⟩
+    match behaviourOf? k c with
+    | some b => some ⟨b, optRat w, optRat r⟩
     | none => none
   | _ => none
 
